@@ -1,36 +1,94 @@
 import ShVerif.Model.L3Glob
 import ShVerif.Proofs.L3Glob
+import ShVerif.Proofs.C18
 /-
   C18 — QuoteMeta and HasMeta are consistent with matching.
+
+  `globMatch` is the reference semantics of shell patterns (Model/L3Glob §5), `quoteMeta`, `hasMeta`
+  the models of pattern.QuoteMeta / pattern.HasMeta (tied to the Go code by exhaustive
+  correspondence), `sameText m t s` is `t = s` — up to case when the mode folds case.
 -/
 namespace ShVerif.C18
 open ShVerif ShVerif.L3
 
-/-- "The same text", up to case when the mode folds case. -/
-def sameText (m : Mode) (t s : Str) : Prop :=
-  t.length = s.length ∧ ∀ i (h : i < t.length) (h' : i < s.length), chEq m.nocase s[i] t[i] = true
-
-/-- QuoteMeta(s) is a pattern that matches s and nothing else — for every mode that matches the
-    entire string.  FALSE today for modes with ExtendedOperators (counter-example below). -/
+/-- QuoteMeta(s) is a pattern that matches s and nothing else, for every mode that matches the
+    entire string.  FALSE of the code today for modes with ExtendedOperators (see the
+    counter-example below and known finding C18-quotemeta-extglob). -/
 def quoteMeta_exact_statement : Prop :=
   ∀ (m : Mode) (s t : Str), m.entire = true → (globMatch m (quoteMeta s) t = true ↔ sameText m t s)
 
 /-- HasMeta p = false → p matches at most one string: p with its escapes removed.
-    FALSE today for modes with ExtendedOperators (counter-example below). -/
+    FALSE of the code today for modes with ExtendedOperators (known finding C18-hasmeta-extglob). -/
 def hasMeta_single_statement : Prop :=
   ∀ (m : Mode) (p t : Str), m.entire = true → hasMeta p = false → globMatch m p t = true →
     sameText m t (unescape p)
 
+/-- The exact extra hypothesis: the mode has no extended operators, or the text has no
+    `!(`, `+(`, `@(` (the operators QuoteMeta leaves unescaped). -/
+theorem quoteMeta_exact_partial (m : Mode) (s t : Str) (he : m.entire = true)
+    (hx : m.ext = false ∨ hasExtOpener s = false) :
+    globMatch m (quoteMeta s) t = true ↔ sameText m t s := by
+  unfold globMatch parseGlob
+  rw [parseSeq_quoteMeta m s _ 0 (Nat.lt_succ_of_le (quoteMeta_length_ge s)) hx]
+  simp only [he, if_true]
+  rw [gmatch_full_iff, GDen_litSeq]
+
+/-- Without case folding: QuoteMeta(s) matches exactly s. -/
+theorem quoteMeta_exact_partial_eq (m : Mode) (s t : Str) (he : m.entire = true)
+    (hn : m.nocase = false) (hx : m.ext = false ∨ hasExtOpener s = false) :
+    globMatch m (quoteMeta s) t = true ↔ t = s := by
+  rw [quoteMeta_exact_partial m s t he hx, sameText_eq hn]
+
+/-- QuoteMeta(s) has no metacharacters according to HasMeta. -/
+theorem quoteMeta_no_meta (s : Str) : hasMeta (quoteMeta s) = false :=
+  hasMetaAux_quoteMeta s
+
+/-- The exact extra hypothesis: the mode has no extended operators, or the pattern has no
+    unescaped `?(`, `*(`, `+(`, `@(`, `!(`. -/
+theorem hasMeta_single_partial (m : Mode) (p t : Str) (he : m.entire = true)
+    (hm : hasMeta p = false) (hx : m.ext = false ∨ hasExtGroup p = false)
+    (h : globMatch m p t = true) : sameText m t (unescape p) := by
+  unfold globMatch parseGlob at h
+  rcases parseSeq_noMeta m (p.length + 1) false 0 p (Nat.lt_succ_self _) hm hx with hp | ⟨e, hp⟩
+  · rw [hp] at h
+    simp only [he, if_true] at h
+    rw [gmatch_full_iff, GDen_litSeq] at h
+    exact h
+  · rw [hp] at h
+    cases h
+
+/-- Without case folding: at most one string, the unescaped pattern. -/
+theorem hasMeta_single_partial_eq (m : Mode) (p t : Str) (he : m.entire = true)
+    (hn : m.nocase = false) (hm : hasMeta p = false) (hx : m.ext = false ∨ hasExtGroup p = false)
+    (h : globMatch m p t = true) : t = unescape p :=
+  (sameText_eq hn _ _).mp (hasMeta_single_partial m p t he hm hx h)
+
 def mCase : Mode := Mode.ofNat 68   -- EntireString | ExtendedOperators: the mode of `case` and [[ ]]
 
-/-- Counter-example: QuoteMeta("@(a)") = "@(a)" matches "a" under the mode of `case`. -/
-theorem quoteMeta_exact_counterexample :
-    globMatch mCase (quoteMeta (strOf "@(a)")) (strOf "a") = true ∧
-    globMatch mCase (quoteMeta (strOf "@(a)")) (strOf "@(a)") = false := by decide +kernel
+/-- Counter-example to the full statement: QuoteMeta("@(a)") = "@(a)" matches "a", and not
+    "@(a)", under the mode of `case`. -/
+theorem quoteMeta_exact_counterexample : ¬ quoteMeta_exact_statement := by
+  intro h
+  have h1 := (h mCase (strOf "@(a)") (strOf "a") (by decide)).mp (by decide +kernel)
+  have h2 := sameText_length h1
+  revert h2
+  decide +kernel
 
-/-- Counter-example: HasMeta("@(a|b)") = false, yet the pattern matches "a" and "b". -/
-theorem hasMeta_single_counterexample :
-    hasMeta (strOf "@(a|b)") = false ∧ globMatch mCase (strOf "@(a|b)") (strOf "a") = true ∧
-    globMatch mCase (strOf "@(a|b)") (strOf "b") = true := by decide +kernel
+/-- Counter-example to the full statement: HasMeta("@(a|b)") = false, yet the pattern matches
+    "a" (and "b"), which is not its unescaped text. -/
+theorem hasMeta_single_counterexample : ¬ hasMeta_single_statement := by
+  intro h
+  have h1 := h mCase (strOf "@(a|b)") (strOf "a") (by decide) (by decide +kernel) (by decide +kernel)
+  have h2 := sameText_length h1
+  revert h2
+  decide +kernel
+
+/-! Non-vacuity: the hypotheses are satisfiable and the conclusions are not trivially true. -/
+example : globMatch (Mode.ofNat 4) (quoteMeta (strOf "a*[b]\\")) (strOf "a*[b]\\") = true := by
+  decide +kernel
+example : globMatch (Mode.ofNat 4) (quoteMeta (strOf "a*")) (strOf "ab") = false := by decide +kernel
+example : hasMeta (strOf "a\\*[b") = false ∧ globMatch (Mode.ofNat 4) (strOf "a\\*[b") (strOf "a*[b") = true := by
+  decide +kernel
+example : hasExtOpener (strOf "?(a)*(b)") = false ∧ hasExtOpener (strOf "@(a)") = true := by decide +kernel
 
 end ShVerif.C18
